@@ -244,6 +244,11 @@ fn blocks(eol: &[u8]) -> Vec<(&'static str, Vec<u8>)> {
         ("fn_call_done_without_id", line(&[b"data: {\"type\":\"response.output_item.done\",\"output_index\":0,\"item\":{\"type\":\"function_call\",\"call_id\":\"c1\",\"name\":\"ls\",\"arguments\":\"{}\"}}", b""])),
         ("data:e9 trunc2 at eol", line(&[b"data: \"\xc3\"", b""])),
         ("bare_cr_in_payload", line(&[b"data: a\rb", b""])),
+        // U+FEFF inside a payload is a character like any other, wherever a chunk boundary falls
+        ("text_delta(U+FEFF inside)", line(&["data: {\"type\":\"response.output_text.delta\",\"delta\":\"a\u{feff}b\"}".as_bytes(), b""])),
+        // blanks at the END of a data line belong to the payload (only one leading space is syntax)
+        ("data_lines_with_trailing_blanks", line(&[b"data: said:  ", b"data: later\t", b""])),
+        ("done_followed_by_a_blank", line(&[b"data: [DONE] ", b""])),
     ]
 }
 
@@ -488,7 +493,8 @@ pub fn run(opts: Opts) -> i32 {
             if report.over_cap() {
                 return;
             }
-            let two = tier == Tier::Quick || stream.bytes.len() <= 200;
+            // two cut points cost n^2 runs: streams of two long items get every single cut and byte-at-a-time
+            let two = stream.bytes.len() <= tier.pick(170, 200);
             check_stream(&report, log, stream, limit, two);
         },
     );
